@@ -11,6 +11,7 @@ import common
 import tlc
 
 SERVES = ["C19"]
+HELPS = ["C20"]
 
 
 def observe(P, seed, n_cases):
@@ -104,6 +105,33 @@ def observe(P, seed, n_cases):
             row["msg"] = str(e)[:160]
         inv = {iid: path for path, iid in flat}
         row["exec"] = sorted([list(inv[i]) for i in rec.entered if i in inv])
+        # C20: the composed DAG called inside another DAG's describing function behaves as when it is called directly
+        row.update({"nested": False, "nraised": False, "noccupied": False, "nval": pg.verr(), "nexec": [], "nerr": ""})
+        if not row["raised"] and rng.random() < 0.6:
+            row["nested"] = True
+            rec2 = pr.Recorder()
+            try:
+                names = [f"q{i}" for i in range(len(vals))]
+                src = f"def outer({', '.join(names)}):\n    return _c({', '.join(names)})\n"
+                env = {"_c": c}
+                exec(compile(src, "<e2c outer>", "exec"), env)  # noqa: S102
+                from tawazi import dag as _dag
+                with warnings.catch_warnings():
+                    warnings.simplefilter("ignore")
+                    outer = _dag(env["outer"])
+                _verif.sink = rec2
+                try:
+                    row["nval"] = pg.encode(outer(*vals))
+                finally:
+                    _verif.sink = None
+            except BaseException as e:  # noqa: BLE001
+                row["nraised"] = True
+                row["nerr"] = (pr.errclass(e) + ": " + str(e))[:160]
+                row["noccupied"] = isinstance(e, KeyError) and "already occupied" in str(e)
+            pref = c.qualname + "."
+            given = {id_of[j] for j in ins}
+            row["nexec"] = sorted([list(inv[i[len(pref):]]) for i in rec2.entered
+                                   if i.startswith(pref) and i[len(pref):] in inv and i[len(pref):] not in given])
         if any(i not in inv for i in rec.entered) and not row["raised"]:
             row["raised"], row["errclass"] = True, "holder-executed"
         again = pr.run_real(d, flat, [pg.encode(x) for x in args0], False)
@@ -171,7 +199,7 @@ def run(tier, seed, log=common.say):
         remap = {p: k + 1 for k, p in enumerate(used)}
         path = os.path.join(common.CACHE, f"e2c-{os.getpid()}-{i}.json")
         os.makedirs(common.CACHE, exist_ok=True)
-        keys = ("ins", "outs", "single", "ell", "vals", "raised", "stage", "errclass", "val", "exec", "orig_same", "pre")
+        keys = ("ins", "outs", "single", "ell", "vals", "raised", "stage", "errclass", "val", "exec", "orig_same", "pre", "nested", "nraised", "noccupied", "nval", "nexec")
         with open(path, "w") as f:
             json.dump({"progs": [stripped[p - 1] for p in used], "obs": [{"p": remap[r["p"]], **{k: r[k] for k in keys}} for r in b]}, f)
         try:
@@ -230,7 +258,7 @@ def report(prop, res):
         mach.append(f'harness errors: {res["harness_errors"][:2]}')
     if res["counts"].get("rows", 0) != res["observations"]:
         mach.append(f'TLC evaluated {res["counts"].get("rows")} of {res["observations"]} observations')
-    nontriv = res["counts"].get("ineq", 0)
+    nontriv = res["counts"].get("nested" if prop == "C20" else "ineq", 0)
     if nontriv < 2:
         mach.append(f"vacuous: {nontriv} non-trivial compositions")
     cov = {"states": res["states"], "transitions": res["transitions"], "traces_validated_against_impl": res["observations"],
@@ -258,7 +286,8 @@ def replay(payload, log=common.say):
     d, flat = pr.build(P, lambda k: {}, mc=2)
     id_of = {path[0]: iid for path, iid in flat}
     vals = [pg.decode(v) for v in row["vals"]]
-    new = dict(row, raised=False, stage="", errclass="", val=pg.verr(), exec=[], orig_same=True, pre=row.get("pre", []))
+    new = dict(row, raised=False, stage="", errclass="", val=pg.verr(), exec=[], orig_same=True, pre=row.get("pre", []),
+               nested=False, nraised=False, noccupied=False, nval=pg.verr(), nexec=[])
     rec = pr.Recorder()
     try:
         with warnings.catch_warnings():
@@ -274,8 +303,29 @@ def replay(payload, log=common.say):
         new["raised"], new["errclass"] = True, pr.errclass(e)
     inv = {iid: path for path, iid in flat}
     new["exec"] = sorted([list(inv[i]) for i in rec.entered if i in inv])
+    if row.get("nested") and not new["raised"]:
+        new["nested"] = True
+        rec2 = pr.Recorder()
+        try:
+            names = [f"q{i}" for i in range(len(vals))]
+            env = {"_c": c}
+            exec(compile(f"def outer({', '.join(names)}):\n    return _c({', '.join(names)})\n", "<e2c outer>", "exec"), env)  # noqa: S102
+            from tawazi import dag as _dag
+            outer = _dag(env["outer"])
+            _verif.sink = rec2
+            try:
+                new["nval"] = pg.encode(outer(*vals))
+            finally:
+                _verif.sink = None
+        except BaseException as e:  # noqa: BLE001
+            new["nraised"] = True
+            new["noccupied"] = isinstance(e, KeyError) and "already occupied" in str(e)
+            log(f"nested call failed: {e!r}")
+        pref = c.qualname + "."
+        given = {id_of[j] for j in row["ins"]}
+        new["nexec"] = sorted([list(inv[i[len(pref):]]) for i in rec2.entered if i.startswith(pref) and i[len(pref):] in inv and i[len(pref):] not in given])
     path = os.path.join(common.CACHE, f"e2c-replay-{os.getpid()}.json")
-    keys = ("ins", "outs", "single", "ell", "vals", "raised", "stage", "errclass", "val", "exec", "orig_same", "pre")
+    keys = ("ins", "outs", "single", "ell", "vals", "raised", "stage", "errclass", "val", "exec", "orig_same", "pre", "nested", "nraised", "noccupied", "nval", "nexec")
     with open(path, "w") as f:
         json.dump({"progs": [payload["prog"]], "obs": [{"p": 1, **{k: new[k] for k in keys}}]}, f)
     r = tlc.run_tlc("CompCheck", "CompCheck.cfg", env={"CASE_FILE": path}, workers=1)
